@@ -20,6 +20,7 @@ func init() {
 			ruleIndexRebuilt(c, "R2a")
 			ruleIndexRebuildComplete(c, "R2b")
 			ruleRemoversUpdateTreeSummary(c, "R3")
+			ruleCleanTestsEveryChild(c, "R4")
 		},
 	})
 }
